@@ -245,7 +245,51 @@ class Mpc2k(Cont):
         return out
 
 
-CONTS = [Htk(), Wve(), Mpc2k()]
+class Pvf(Cont):
+    name, major = "pvf", 0x0E
+    rates = [1, 2, 9, 10, 99, 100, 8000, 44100, 65536, 999999999, 1000000000, 2 ** 31 - 1]
+    rewrites = True     # no length in the header, but header updates are accepted and must leave a valid file
+    kf_ids = ("KF-PVF-SHORT-HEADER", "KF-PVF-TINY-FILE")
+
+    def channels(self, f):
+        return [c for c in (1, 2, 3, 9, 10, 11) if c <= f.maxch]
+
+    def text(self, j):
+        return b"PVF1\n%d %d %d\n" % (j.ch, j.sr, 8 * BYTEWIDTH[j.f.codec])
+
+    def size_problems(self, j, b, frames):
+        t = self.text(j)
+        out = []
+        if b[:len(t)] != t:
+            out.append("text header %r, expected %r" % (b[:len(t) + 2], t))
+        if len(b) != len(t) + j.n * j.bw:
+            out.append("file length %d, header %d + %d audio bytes" % (len(b), len(t), j.n * j.bw))
+        return out
+
+    def known(self, j, frames_total, probs):
+        if len(self.text(j)) < 12:
+            # 11-byte header: with no audio the file is shorter than the 12 bytes the type detection reads
+            return "KF-PVF-TINY-FILE" if any("fails" in p or "cannot be opened" in p for p in probs) and (j.n == 0 or j.parts[0] == 0) else "KF-PVF-SHORT-HEADER"
+        return None
+
+    def hdr_len(self, b):
+        return b.index(b"\n", 5) + 1 if b"\n" in b[5:] else len(b)
+
+    def mutants(self, b, rng):
+        out = []
+        e = self.hdr_len(b)
+        rest = b[e:]
+        for t in (b"1 8000 16", b" 2  44100\t32", b"+1 -5 8", b"-1 8000 8", b"0 8000 16", b"1025 8000 16", b"1024 1 32", b"1 0 8", b"1 8000 24", b"1 8000 0",
+                  b"1 8000", b"1 8000 x", b"x 1 8", b"1 8000 16 99", b"1 2147483647 16", b"1 2147483648 16", b"1 99999999999 8", b"1 8000 16\r", b"01 08000 016",
+                  b"1 8000 16 and a very long comment here", b"1 1 8", b"1 1 16", b"9 9 8", b"1 8000 8\x00 16", b"12 12 8 "):
+            out.append(("text=%s" % t.decode("latin1").replace("\n", "~")[:14], b"PVF1\n" + t + b"\n" + rest))
+            out.append(("text-nonl=%s" % t.decode("latin1")[:14], b"PVF1\n" + t + rest[:3]))
+        out.append(("sep", b"PVF1 " + b[5:]))
+        out.append(("crlf", b"PVF1\r\n" + b[5:]))
+        return out
+
+
+CONTS = [Htk(), Wve(), Mpc2k(), Pvf()]
 
 
 # ---------------------------------------------------------------- sessions
